@@ -20,6 +20,8 @@ from unitgen import UnitBuild  # noqa: E402
 
 SEMANTIC = [
     ('postcondition not satisfied', 'ensures'),
+    ('unable to prove post-condition of closure', 'ensures'),
+    ('unable to prove precondition of closure', 'requires@call'),
     ('precondition not satisfied', 'requires@call'),
     ('invariant not satisfied', 'invariant'),
     ('assertion failed', 'assert'),
